@@ -67,7 +67,8 @@ func pool(t *gen.Ty, full bool) []*ref.V {
 		return []*ref.V{ref.ListV(gen.Str), ref.ListV(gen.Str, strs("a")...), ref.ListV(gen.Str, strs("a", "b")...), ref.ListV(gen.Str, strs("b", "a", "a")...),
 			ref.ListV(gen.Str, strs("a", "b", "c")...), ref.ListV(gen.Str, strs("c", "a")...)}
 	case tyLObj.Canon():
-		return []*ref.V{ref.ListV(tyOAB), ref.ListV(tyOAB, oab(1, "x")), ref.ListV(tyOAB, oab(1, "x"), oba(1, "x")), ref.ListV(tyOAB, oba(2, "y"), oab(1, "x"))}
+		return []*ref.V{ref.ListV(tyOAB), ref.ListV(tyOAB, oab(1, "x")), ref.ListV(tyOAB, oab(1, "x"), oba(1, "x")), ref.ListV(tyOAB, oba(2, "y"), oab(1, "x")),
+			ref.ListV(tyOBA, oba(1, "x")), ref.ListV(tyOBA, oba(1, "x"), oab(1, "x")), ref.ListV(tyOAB, oab(2, "y"), oba(1, "x"))}
 	case tyMSN.Canon():
 		return []*ref.V{ref.MapV(gen.Str, gen.Num), ref.MapV(gen.Str, gen.Num, ref.StrV("a"), ref.NumV(1)),
 			ref.MapV(gen.Str, gen.Num, ref.StrV("a"), ref.NumV(1), ref.StrV("b"), ref.NumV(2)),
@@ -78,7 +79,7 @@ func pool(t *gen.Ty, full bool) []*ref.V {
 	case tyMbNum.Canon():
 		return []*ref.V{ref.NothingV(gen.Num), ref.JustV(ref.NumV(1))}
 	case tyMbObj.Canon():
-		return []*ref.V{ref.NothingV(tyOAB), ref.JustV(oab(1, "x"))}
+		return []*ref.V{ref.NothingV(tyOAB), ref.JustV(oab(1, "x")), ref.JustV(oba(1, "x"))}
 	case tyOAB.Canon():
 		return []*ref.V{oab(1, "x"), oba(1, "x"), oba(2, "y")}
 	}
